@@ -134,7 +134,8 @@ static size_t producer(void* st, ZSTD_Sequence* outSeqs, size_t outSeqsCapacity,
     {   parsecfg C2 = C; vrng rr = *P->r; size_t const n = srcSize;
         /* parse with blockEnd == n: implement by using non-explicit parse then appending the delimiter */
         C2.explicitDelims = 0; parse(&rr, (const uint8_t*)src, n, &C2, &v, st2);
-        if (P->maxSeqs >= 0 && v.n > (size_t)P->maxSeqs) v.n = (size_t)P->maxSeqs;
+        {   int cap = P->maxSeqs; if (cap == -2) cap = (int)((P->failMask * 2654435761u + (uint32_t)P->calls * 40503u) >> 7) % 7;      /* -2: another limit 0..6 at every call */
+            if (cap >= 0 && v.n > (size_t)cap) v.n = (size_t)cap; }
         size_t consumed = 0; for (size_t i = 0; i < v.n; i++) consumed += v.s[i].litLength + v.s[i].matchLength;
         sv_push(&v, 0, (uint32_t)(n - consumed), 0); }
     if (v.n > outSeqsCapacity) { free(v.s); return ZSTD_SEQUENCE_PRODUCER_ERROR; }
@@ -215,7 +216,7 @@ static void run_positive(long idx)
     } else {
         prodstate P; P.r = &r; P.C = &C; P.mode = vr_chance(&r, 1, 2) ? 0 : (int)vr_range(&r, 1, 3); P.calls = 0; P.failed = 0;
         P.failMask = vr_chance(&r, 1, 4) ? 0xFFFFFFFFu : vr_chance(&r, 1, 2) ? (0xFFFFFFFFu << (1 + vr_u(&r, 4))) : (uint32_t)vr_next(&r);     /* always / works for the first 1..4 blocks then fails / per-block pattern */
-        P.maxSeqs = vr_chance(&r, 1, 2) ? (int)vr_u(&r, 7) : -1;
+        P.maxSeqs = vr_chance(&r, 1, 3) ? (int)vr_u(&r, 7) : vr_chance(&r, 1, 2) ? -2 : -1;
         int const fallback = (int)vr_u(&r, 2);
         ZSTD_registerSequenceProducer(c, &P, producer);
         ZSTD_CCtx_setParameter(c, ZSTD_c_enableSeqProducerFallback, fallback); if (getenv("VERIF_C17_NOFAIL")) P.failMask = 0; if (getenv("VERIF_C17_MAXSEQ")) P.maxSeqs = atoi(getenv("VERIF_C17_MAXSEQ")); if (getenv("VERIF_C17_LEVEL")) ZSTD_CCtx_setParameter(c, ZSTD_c_compressionLevel, atoi(getenv("VERIF_C17_LEVEL")));
@@ -235,7 +236,7 @@ static void run_positive(long idx)
             if (producerFails) v_stat("producer_fallbacks", 1);
         }
         v_stat("producer_calls", P.calls);
-        v_cell("positive_cell", "producer|mode%d|fallback%d|%s|%s", P.mode, fallback, P.failed == 0 ? "never-fails" : P.failed == P.calls ? "always-fails" : "fails-on-some-blocks", P.maxSeqs >= 0 ? "few-sequences" : "full-parse");
+        v_cell("positive_cell", "producer|mode%d|fallback%d|%s|%s", P.mode, fallback, P.failed == 0 ? "never-fails" : P.failed == P.calls ? "always-fails" : "fails-on-some-blocks", P.maxSeqs >= 0 ? "few-sequences" : P.maxSeqs == -2 ? "0..6-sequences-varying-per-block" : "full-parse");
     }
     ZSTD_freeCCtx(c); free(dst); free(dict); free(src);
 }
